@@ -376,13 +376,12 @@ type session struct {
 	bt map[string]*built
 }
 
+// get returns the table built by an earlier B op of the case ("-" in W results when there is none).
 func (s *session) get(m string) *built {
 	if b, ok := s.bt[m]; ok {
 		return b
 	}
-	b := build(s.g, m)
-	s.bt[m] = &b
-	return &b
+	return &built{status: "-"}
 }
 
 func (s *session) exec(w *tr.W, op string) {
